@@ -33,19 +33,29 @@ def gen(rng, tier, quarantine=()):
     nprobes = rng.randint(2, 4)
     kinds = {}
     ops = []
+    tooled = set()
     for i in range(nprobes):
         pid = f"p{i}"
         kinds[pid] = rng.choice(["block", "global", "global"])
         nsel = rng.choice([1, 1, 2])
         sels = [gen_sel(rng, fns) for _ in range(nsel)]
         op = {"op": "mk", "id": pid, "sels": sels, "inv": "C05.exactly_once", "kind": "probe"}
+        if "no-overlays" not in quarantine and rng.random() < 0.25:
+            # an Overlay (tap) instead of a probe: it tools nothing itself, so its
+            # functions are tooled in place up front
+            op["kind"] = "overlay"
+            sels[:] = sels[:1]
+            if sels[0].get("mode") == "total":
+                op["ptype"] = "total"
+            for lv in sels[0]["levels"]:
+                tooled.add(lv["fn"])
         if any(s.get("mode") == "total" for s in sels):
             op["raw"] = True
             for s in sels:
                 if s.get("focus") is not None:
                     s["mode"] = "immediate"
         ops.append(op)
-        if "no-completion-raises" not in quarantine and rng.random() < 0.12 and sels[0].get("focus") and not op.get("raw"):
+        if "no-completion-raises" not in quarantine and rng.random() < 0.12 and sels[0].get("focus") and not op.get("raw") and op["kind"] == "probe":
             ops.append({"op": "stage", "id": pid, "kind": rng.choice(["min", "max", "last"]),
                         "cap": sels[0]["focus"]["as"], "bare": rng.random() < 0.7})
     if "no-failed-activation" not in quarantine and rng.random() < 0.25:
@@ -88,6 +98,7 @@ def gen(rng, tier, quarantine=()):
             ops.append({"op": "call", "fn": rng.choice(fns + ["S"]), "nargs": 1,
                         "tape": tree_tape(rng, rng.randint(2, 24), set(fns), pc, rng.choice([0.0, 0.5])),
                         "faults": gen_faults(rng, 40, rng.choice([0, 0, 1]))})
+    ops[0:0] = [{"op": "tool", "fn": f, "how": "inplace"} for f in sorted(tooled)]
     # recovery: everything off, then a fresh probe sees a clean stream
     for pid in reversed(active):
         ops.append({"op": "exit", "id": pid})
